@@ -160,6 +160,18 @@ func normalize(prog *load.Program, literals bool) (*load.Program, *Result, error
 	if res.Inlined == 0 {
 		return prog, res, nil
 	}
+	// local single-expression closures left behind by the inlining of a helper that takes the varying operation as a
+	// function argument are reduced at their call sites
+	{
+		touched := map[string]bool{}
+		for f := range res.Files {
+			touched[f] = true
+		}
+		if next, n := betaReduce(cur, touched, res.Files); next != nil {
+			cur = next
+			res.Inlined += n
+		}
+	}
 	// a new helper that is no longer referenced anywhere is dropped from the normalised view: its body now lives at its
 	// call sites, and rules that scan every function would otherwise judge it a second time, out of context
 	if next := dropUnreferenced(cur, res); next != nil {
@@ -728,6 +740,14 @@ func inlineCall(prog *load.Program, pk *load.Package, f *ast.File, src []byte, t
 			return edit{start: callStart, end: callEnd, text: "(" + substExpr(h, hsrc, htf, rs.Results[0], subst) + ")"}, ""
 		}
 	}
+	if hasDefer && !namedResults(d) {
+		// tail position: `return h(...)` as a whole statement - the helper's deferred calls run when the helper returns,
+		// which is when this statement completes, and before any deferred call the caller registered earlier: exactly
+		// what happens when the body stands in place of the statement (its returns are the caller's)
+		if rs, ok := parent.(*ast.ReturnStmt); ok && len(rs.Results) == 1 && rs.Results[0] == ast.Expr(call) && nres > 0 && tailResultsAgree(pk, stack, sig) {
+			return edit{start: tf.Offset(rs.Pos()), end: tf.Offset(rs.End()), text: "{\n" + prelude + bodyText + "\n}"}, ""
+		}
+	}
 	if hasDefer {
 		if literals {
 			return edit{start: callStart, end: callEnd, text: "func() " + resultDecl + " {\n" + prelude + bodyText + "\n}()"}, ""
@@ -901,6 +921,15 @@ func inlineCall(prog *load.Program, pk *load.Package, f *ast.File, src []byte, t
 			}
 			return edit{start: tf.Offset(p.Pos()), end: tf.Offset(p.End()), text: core}, ""
 		}
+	case *ast.SendStmt:
+		// `ch <- h(...)` with ch a plain local: the helper cannot touch ch, so computing the value first is the same
+		if id, isId := ast.Unparen(p.Chan).(*ast.Ident); isId && p.Value == ast.Expr(call) && nres == 1 {
+			if v, isVar := pk.Info.Uses[id].(*types.Var); isVar && !v.IsField() && v.Parent() != pk.Types.Scope() {
+				t := fmt.Sprintf("ret0_%s", label)
+				txt := "{\nvar " + t + " " + resultType(0) + "\n" + splice([]string{t}) + "\n" + id.Name + " <- " + t + "\n}"
+				return edit{start: tf.Offset(p.Pos()), end: tf.Offset(p.End()), text: txt}, ""
+			}
+		}
 	case *ast.IfStmt:
 		if p.Cond == ast.Expr(call) && nres == 1 && p.Init == nil {
 			t := "cond_" + label
@@ -970,6 +999,43 @@ func substExpr(h *helper, hsrc []byte, htf *token.File, e ast.Expr, subst map[ty
 		out = append(out[:r.s-lo], append([]byte(r.t), out[r.e-lo:]...)...)
 	}
 	return string(out)
+}
+
+// tailResultsAgree: the function enclosing the call has exactly the helper's result types.
+func tailResultsAgree(pk *load.Package, stack []ast.Node, sig *types.Signature) bool {
+	for i := len(stack) - 1; i >= 0; i-- {
+		var ft *ast.FuncType
+		switch x := stack[i].(type) {
+		case *ast.FuncLit:
+			ft = x.Type
+		case *ast.FuncDecl:
+			ft = x.Type
+		default:
+			continue
+		}
+		var ts []types.Type
+		if ft.Results != nil {
+			for _, fld := range ft.Results.List {
+				k := len(fld.Names)
+				if k == 0 {
+					k = 1
+				}
+				for j := 0; j < k; j++ {
+					ts = append(ts, pk.Info.TypeOf(fld.Type))
+				}
+			}
+		}
+		if len(ts) != sig.Results().Len() {
+			return false
+		}
+		for j, t := range ts {
+			if t == nil || !types.Identical(t, sig.Results().At(j).Type()) {
+				return false
+			}
+		}
+		return true
+	}
+	return false
 }
 
 func namedResults(d *ast.FuncDecl) bool {
